@@ -7,7 +7,7 @@ Local Open Scope R_scope.
 
 Inductive pv : Type :=                       (* vector expressions of the parameter *)
 | PSym (v : V3)                              (* a VectorSymbol: does not depend on the parameter *)
-| PFun (f f' : R -> V3)                      (* a vector function applied to the parameter, and its derivative *)
+| PFun (f : nat -> R -> V3) (n : nat)        (* the n-th derivative of a vector function of the parameter (f 0): f n *)
 | PAddV (x y : pv)
 | PScaleV (k : ps) (x : pv)
 | PCrossV (x y : pv)
@@ -24,7 +24,7 @@ with ps : Type :=                            (* scalar expressions of the parame
 Fixpoint pval_v (e : pv) (t : R) : V3 :=
   match e with
   | PSym v => v
-  | PFun f _ => f t
+  | PFun f n => f n t
   | PAddV x y => vadd (pval_v x t) (pval_v y t)
   | PScaleV k x => vscale (pval_s k t) (pval_v x t)
   | PCrossV x y => cross (pval_v x t) (pval_v y t)
@@ -45,7 +45,7 @@ with pval_s (e : ps) (t : R) : R :=
 Fixpoint Dv (e : pv) : pv :=
   match e with
   | PSym _ => PSym vzero
-  | PFun _ f' => PFun f' (fun _ => vzero)             (* VectorDerivative(f(t), t): an atom of its own *)
+  | PFun f n => PFun f (S n)                          (* VectorDerivative(f(t), (t, n + 1)): an atom of its own *)
   | PAddV x y => PAddV (Dv x) (Dv y)
   | PScaleV k x => PAddV (PScaleV (Ds k) x) (PScaleV k (Dv x))
   | PCrossV x y => PAddV (PCrossV (Dv x) y) (PCrossV x (Dv y))
@@ -72,7 +72,7 @@ Definition dlim3 (F : R -> V3) (t : R) (L : V3) : Prop :=
 Fixpoint wf_v (e : pv) (t : R) : Prop :=
   match e with
   | PSym _ => True
-  | PFun f f' => dlim3 f t (f' t)
+  | PFun f n => dlim3 (f n) t (f (S n) t)
   | PAddV x y => wf_v x t /\ wf_v y t
   | PScaleV k x => wf_s k t /\ wf_v x t
   | PCrossV x y => wf_v x t /\ wf_v y t
